@@ -23,7 +23,8 @@ static inline u64 nondet_u64(void){return (u64)vp_native_next(64);}
 static inline float nondet_f32(void){u32 b=(u32)vp_native_next(32); float f; memcpy(&f,&b,4); return f;}
 static inline double nondet_f64(void){u64 b=vp_native_next(64); double f; memcpy(&f,&b,8); return f;}
 #define __CPROVER_assume(c) do{ if(!(c)){ printf("VP_ASSUME_FAIL\n"); exit(0);} }while(0)
-#define __CPROVER_assert(c,l) do{ if(!(c)){ printf("VP_ASSERT_FAIL %s\n", l); exit(3);} }while(0)
+extern int vp_native_trace;
+#define __CPROVER_assert(c,l) do{ int c_=!!(c); if(vp_native_trace && l[0]=='V' && l[1]=='P' && l[2]==':') printf("A %s %d\n", l+3, c_); if(!c_){ printf("VP_ASSERT_FAIL %s\n", (l[0]=='V'&&l[1]=='P'&&l[2]==':')? l+3 : l); fflush(stdout); _Exit(3);} }while(0)
 #define __CPROVER_atomic_begin() ((void)0)
 #define __CPROVER_atomic_end() ((void)0)
 #define VP_SPAWN(fn,arg) (fn)(arg)
@@ -34,7 +35,9 @@ float nondet_f32(void); double nondet_f64(void);
 #endif
 
 #define VP_ASSERT(c,l) __CPROVER_assert((c), "VP:" l)
-#ifdef VP_WITNESS
+#ifdef VP_NATIVE
+#define VP_REACH(l) do{ if(vp_native_trace) printf("R %s\n", l); }while(0)
+#elif defined(VP_WITNESS)
 #define VP_REACH(l) __CPROVER_assert(0, "REACH:" l)
 #else
 #define VP_REACH(l) ((void)0)
@@ -75,6 +78,27 @@ extern const u8 *vp_sh_base; extern u64 vp_sh_size; extern u8 vp_sh_w[]; extern 
 #define VP_RACE_R_END(p,n) ((void)0)
 #endif
 
+/* heap model: blocks of symbolic size are allocated at the constant capacity VP_HEAP_MAX (a symbolic-size
+   object sends cbmc into the array theory and does not finish); the requested size is kept in a ghost table
+   indexed by object id and every access through a possibly-heap pointer is checked against it (VP_CHK). */
+#ifndef VP_RECLIMIT
+#define VP_RECLIMIT 3
+#endif
+#ifdef VP_THREADS
+#define VP_TLS __thread
+#else
+#define VP_TLS
+#endif
+#ifndef VP_HEAP_MAX
+#define VP_HEAP_MAX 64
+#endif
+#ifdef VP_NATIVE
+#define VP_CHK(p,sz) ((void)0)
+#define __CPROVER_POINTER_OBJECT(p) 0
+#else
+#define VP_CHK(p,sz) __CPROVER_assert(vp_objsz[__CPROVER_POINTER_OBJECT(p)] == 0 || (u64)__CPROVER_POINTER_OFFSET(p) + (sz) < vp_objsz[__CPROVER_POINTER_OBJECT(p)], "MEM:access beyond the requested size of a heap block")
+#endif
+extern u64 vp_objsz[256];
 /* symbolic-length byte operations as plain loops (cbmc's built-in array copy with a symbolic size does not terminate in post-processing) */
 static inline void vp_memcpy(u8 *d, const u8 *s, u64 n){ for (u64 i = 0; i < n; i++) { VP_CHK(d+i,1); VP_CHK(s+i,1); d[i] = s[i]; } }
 static inline void vp_memmove(u8 *d, const u8 *s, u64 n){ if ((u64)d <= (u64)s || (u64)d >= (u64)s + n) { for (u64 i = 0; i < n; i++) d[i] = s[i]; } else { for (u64 i = n; i > 0; i--) d[i-1] = s[i-1]; } }
@@ -87,17 +111,5 @@ static inline u32 vp_ctpop32(u32 x){ u32 n=0; while(x){n+=x&1;x>>=1;} return n; 
 static inline u64 vp_ctpop64(u64 x){ u64 n=0; while(x){n+=x&1;x>>=1;} return n; }
 static inline u32 vp_bswap32(u32 x){ return (x>>24)|((x>>8)&0xff00)|((x<<8)&0xff0000)|(x<<24); }
 static inline void *vp_opaque_ptr(void){ return malloc(64); }
-/* heap model: blocks of symbolic size are allocated at the constant capacity VP_HEAP_MAX (a symbolic-size
-   object sends cbmc into the array theory and does not finish); the requested size is kept in a ghost table
-   indexed by object id and every access through a possibly-heap pointer is checked against it (VP_CHK). */
-#ifndef VP_HEAP_MAX
-#define VP_HEAP_MAX 64
-#endif
-#ifdef VP_NATIVE
-#define VP_CHK(p,sz) ((void)0)
-#define __CPROVER_POINTER_OBJECT(p) 0
-#else
-#define VP_CHK(p,sz) __CPROVER_assert(vp_objsz[__CPROVER_POINTER_OBJECT(p)] == 0 || (u64)__CPROVER_POINTER_OFFSET(p) + (sz) < vp_objsz[__CPROVER_POINTER_OBJECT(p)], "MEM:access beyond the requested size of a heap block")
-#endif
-extern u64 vp_objsz[256];
+
 #endif
